@@ -105,6 +105,7 @@ def check_cases(cases: list[dict], rep: Report, known: dict) -> None:
             if len(rep.samples) < 6 and not nc.info["complete"]:
                 rep.sample({"e": nc.info["e"][:150], "p": nc.info["p"], "supplied": nc.info["supplied"], "impl": nc.info["impl"]})
     names(rep)
+    lookalikes(rep)
 
 
 def occurring(e) -> set:
@@ -148,6 +149,36 @@ def names(rep: Report) -> None:
         r6 = call(lambda: sm.LocatedDifferential(X.Multiply(v[1], v[1]), Point(**{n: 3})).component(n))
         if (r1, r2, r3) != (("ok", 3), ("ok", 3), ("ok", 4.0)) or not all(r == ("ok", 6.0) or r == ("ok", 6) for r in (r4, r5, r6)):
             rep.violation(f"legal variable name {n[:30]!r} cannot be used as a coordinate: {[r1, r2, r3, r4, r5, r6]!r}", info)
+
+
+LOOKALIKES = [("\u00b5", "\u03bc"), ("\u017f", "s"), ("\u212a", "K"), ("\uff58", "x"), ("\ufb01", "fi"), ("x", "X"),
+              ("\u00e5", "\u212b"), ("\u2160", "I"), ("x1", "x\u00b9"), ("\u0131", "i"), ("_", "__")]
+
+
+def lookalikes(rep: Report) -> None:
+    """distinct legal names that some normalisation (NFKC, NFC, case folding) would identify are
+    different variables and different coordinates, in either order"""
+    for a, b in LOOKALIKES:
+        va, vb = call(lambda: X.Variable(a)), call(lambda: X.Variable(b))
+        if va[0] != "ok" or vb[0] != "ok":
+            rep.count("lookalike-names", "one-rejected-by-Variable")
+            continue
+        rep.count("lookalike-names", "both-legal")
+        rep.evaluations += 1
+        e = X.Add(X.Multiply(X.Constant(2), va[1]), vb[1])
+        got = call(lambda: (
+            e.at(Point(**{a: 3, b: 5})), e.at(Point(**{b: 5, a: 3})), sorted(e._variable_names) == sorted([a, b]),
+            sm.Partial(e, a).at(Point(**{a: 3, b: 5})), sm.Partial(e, b).at(Point(**{b: 5, a: 3})),
+            sm.LocatedDifferential(e, Point(**{b: 5, a: 3})).component(a), va[1] == vb[1],
+            Point(**{a: 1}) == Point(**{b: 1}), len(Point(**{a: 1, b: 2})._coordinates),
+            Point(**{a: 1, b: 2}).coordinate(a), Point(**{a: 1, b: 2}).coordinate(b)))
+        want = (11, 11, True, 2, 1, 2, False, False, 2, 1, 2)
+        if got[0] != "ok" or tuple(got[1]) != want:
+            rep.violation(f"the distinct legal names {a!r} and {b!r} are not kept apart as variables / coordinates: {got!r}, expected {want!r}",
+                          {"names": [a, b]})
+        missing = call(lambda: e.at(Point(**{a: 3})))
+        if missing != ("err", "missing"):
+            rep.violation(f"a point supplying only {a!r} evaluated an expression that also mentions {b!r}: {missing!r}", {"names": [a, b]})
 
 
 def run(rep: Report, rng, tier: str, known: dict, search: bool = False) -> None:
